@@ -466,6 +466,33 @@ def true_region(rows, numeric_variants):
     return out
 
 
+def _eq_const_region(f, body, st):
+    """`self == CONST` with a derived (structural) PartialEq: the true region is exactly the constant's value"""
+    t = peel(body.local_term(0))
+    if not (is_call(t, "core::cmp::PartialEq::eq") and len(t[3]) == 2):
+        return None
+    eq = None
+    for im in f.impls:
+        if im["trait"] == "core::cmp::PartialEq" and im["self_ty"] == st:
+            eq = f.bodies.get(im["methods"].get("eq"))
+    if eq is None or not all((bl.get("exp") or "").startswith("macro:PartialEq") for bl in eq.blocks if not bl["cleanup"]):
+        return None  # a hand-written comparison can mean anything
+    a, b = peel(t[3][0]), peel(t[3][1])
+    if a == ("param", "self"):
+        k = b
+    elif b == ("param", "self"):
+        k = a
+    else:
+        return None
+    if not (k[0] == "agg" and k[1] == "adt" and k[2] == st):
+        return None
+    if not k[5]:
+        return {k[3]: "all"}
+    if len(k[5]) == 1 and k[5][0][0] == "const" and k[5][0][2] is not None:
+        return {k[3]: (k[5][0][2], k[5][0][2])}
+    return None
+
+
 def rule_class(R):
     f = R.f
     st = "mqtt_client::outbound::SendState"
@@ -473,8 +500,8 @@ def rule_class(R):
     prog = roles.method(f, st, "is_in_progress")
     R.touch(fresh)
     R.touch(prog)
-    tf = true_region(decision_table(f, fresh, st), {"Write"})
-    tp = true_region(decision_table(f, prog, st), {"Write"})
+    tf = true_region(decision_table(f, fresh, st), {"Write"}) or _eq_const_region(f, fresh, st)
+    tp = true_region(decision_table(f, prog, st), {"Write"}) or _eq_const_region(f, prog, st)
     R.ob("class/fresh", tf == {"Write": (0, 0)},
          "an entry is fresh exactly when it is Write{written: 0} (extracted true-region: %s)" % (tf,), where=fresh.span)
     R.ob("class/in-progress", tp == {"Write": (1, INF), "Flush": "all"},
